@@ -85,14 +85,41 @@ def predicates(out, sep, keep_zeros, max_length):
     return bad
 
 
-def uint(s, keep_zeros=False):
-    t = s.strip()
+# Unicode White_Space (what Rust's trim() removes); Python's str.strip() additionally removes U+001C..U+001F
+_WS = set("\t\n\x0b\x0c\r \x85\xa0\u1680\u2000\u2001\u2002\u2003\u2004\u2005\u2006\u2007\u2008\u2009\u200a\u2028\u2029\u202f\u205f\u3000")
+
+
+def _trim_ws(s):
+    i, j = 0, len(s)
+    while i < j and s[i] in _WS:
+        i += 1
+    while j > i and s[j - 1] in _WS:
+        j -= 1
+    return s[i:j]
+
+
+def _uint_core(t, keep_zeros):
     if t and all(c in "0123456789" for c in t):
         if keep_zeros:
             return t
         u = t.lstrip("0")
         return u if u else "0"
     return ""
+
+
+def uint(s, keep_zeros=False):
+    """zerv's reading (surrounding white space ignored); see uint_admissible for what the statement admits"""
+    return _uint_core(_trim_ws(s), keep_zeros)
+
+
+def uint_admissible(s, keep_zeros=False):
+    """"the digits of a purely numeric input ... the empty string for anything else": for digits wrapped in white space the statement
+    admits both readings (not purely numeric -> "", or the wrapping ignored -> the digits); everything else has one answer"""
+    out = {_uint_core(s, keep_zeros)}
+    t = _trim_ws(s)
+    if t != s:
+        out.add(_uint_core(t, keep_zeros))
+    return out
 
 
 def _selftest():
@@ -107,6 +134,7 @@ def _selftest():
     assert predicates("ab--cd", "--", False, None) == [] and predicates("ab----cd", "--", False, None) == ["doubled-sep"]
     assert predicates("a.b", ".", False, None) == [] and predicates(".a", ".", False, None) == ["leading-sep"] and predicates("a b", ".", False, None) == ["foreign-char"]
     assert uint("007") == "7" and uint("0") == "0" and uint("1a") == "" and uint("") == "" and uint("٣") == ""
+    assert uint("\x1f7") == "" and uint(" 7\n") == "7" and uint_admissible(" 7") == {"", "7"} and uint_admissible("7") == {"7"} and uint_admissible("\x1f7") == {""}
     return True
 
 
